@@ -202,4 +202,14 @@ prog('rempty', {
     'bb': [R(4, 'b', set=[8]), R(4, 'b')],
     'cc': [R(2, 'c', set=[9], reset=[8])],
 }, ['', '0', '1', '2', '7'], templates={'root': 'root {{.aa}}'}, rempty=True)
+# msink: the MENU is the sink (MSINK) and is paged; afterwards a node without any menu and a node with an ordinary menu are shown
+prog('msink', {
+    'root': [I('MOUT', 'menu', '1'), I('MOUT', 'plain', '2'), I('HALT'), I('INCMP', 'msub', '1'), I('INCMP', 'plain', '2'), I('INCMP', '.', '*')],
+    'msub': [I('MOUT', 'aaaa', '31'), I('MOUT', 'bbbbbb', '32'), I('MOUT', 'cc', '33'), I('MOUT', 'dddddd', '34'), I('MOUT', 'up', '0'), I('MSINK'),
+             I('MNEXT', 'nx', '11'), I('MPREV', 'pv', '22'), I('HALT'), I('INCMP', '>', '11'), I('INCMP', '<', '22'), I('INCMP', '_', '0'), I('INCMP', 'plain', '9')],
+    'plain': [I('LOAD', 'aa', n=4), I('MAP', 'aa'), I('HALT'), I('INCMP', '_', '0'), I('INCMP', '^', '*')],
+    '_catch': CATCH,
+}, {
+    'aa': [R(3, 'a')],
+}, ['', '1', '2', '11', '22', '0', '9'], templates={'root': 'root', 'msub': 'M', 'plain': 'plain {{.aa}}'}, outputsize=30)
 print('programs written to', OUT)
